@@ -3,7 +3,18 @@
 import json, os, sys
 here = os.path.dirname(os.path.abspath(__file__))
 sys.path.insert(0, here)
+import ast, glob
 import manifest_data as D
+# per-property texts live next to the check: harness/corr/Cxx.py  ->  MANIFEST = {"text":…, "note":…, "technique":…, "translated": bool}
+for f in sorted(glob.glob(os.path.join(here, "..", "harness", "corr", "C*.py"))):
+    tree = ast.parse(open(f).read())
+    for node in tree.body:
+        if isinstance(node, ast.Assign) and getattr(node.targets[0], "id", None) == "MANIFEST":
+            d = ast.literal_eval(node.value)
+            pid = os.path.basename(f)[:-3]
+            D.CLAIMED[pid] = d
+            if d.get("translated"):
+                D.TRANSLATED.append(pid)
 props = [json.loads(l) for l in open(os.path.join(here, "..", "properties.jsonl"))]
 ids = [p["id"] for p in props]
 checks, na = [], []
